@@ -30,7 +30,12 @@ Translates with `ast` (expressions and statements are parsed by shape, no pinned
 into terms of coq/theories/Stdout/DebugSyntax.v.  coq/theories/Stdout/DebugTie.v interprets them.
 
 Fail closed: inside the translated functions every statement must be recognised or be IGNORABLE
-(docstring, `pass`, `logger = getLogger(..)`, `logger.xxx(<no calls>)`, annotation without value).  An
+(docstring, `pass`, `logger = getLogger(..)`, `logger.xxx(<no Call / NamedExpr / Await / Yield / Lambda / comprehension>)`,
+annotation without value).  Nothing else is dropped: asserts are translated (SAssert), every other statement either has
+a constructor or raises.  Class bodies: only the expected bases, only the expected methods (StdInOut: the four
+translated; CustomizedPdb: __init__/_cmdloop/cmdloop/set_continue, whose calls are emitted and checked in Coq), no
+decorators, no class-level statements.  Modules: no top-level statement other than imports, defs, classes, docstrings and
+assignments to fresh names that mention no translated name (no monkeypatching, no rebinding).  An
 expression in a tracked position that contains no call at all but is not understood becomes `EOpaque`
 (an unknown value: a theorem that depends on it fails); anything with a call that is not understood
 raises DebugStreamError and `./check C13` reports a broken tie obligation.
@@ -53,6 +58,7 @@ SRC_REPEAT = 'nextline/spawned/plugin/plugins/repeat.py'
 CHILD_DIRS = ('nextline/spawned', 'nextline/utils')
 
 STDINOUT_METHODS = ('__init__', 'write', 'flush', 'readline')
+CUSTOM_METHODS = ('__init__', '_cmdloop', 'cmdloop', 'set_continue')
 
 
 class DebugStreamError(Exception):
@@ -154,6 +160,46 @@ def imports_of(tree) -> dict:
             for a in st.names:
                 imp[a.asname or a.name] = ('', a.name)
     return imp
+
+
+def idents(node) -> set:
+    out = set()
+    for n in ast.walk(node):
+        if isinstance(n, ast.Name):
+            out.add(n.id)
+        elif isinstance(n, ast.Attribute):
+            out.add(n.attr)
+    return out
+
+
+def check_module(tree, rel: str, translated: set):
+    """no top-level statement rebinds or monkeypatches a translated name"""
+    seen = set()
+    for st in tree.body:
+        if isinstance(st, (ast.Import, ast.ImportFrom)):
+            for a in st.names:
+                nm = (a.asname or a.name).split('.')[0]
+                if nm in translated and not (isinstance(st, ast.ImportFrom) and nm in IMPORTED_TRANSLATED.get(rel, ())):
+                    fail(rel, st, 'import that rebinds a translated name')
+            continue
+        if isinstance(st, (ast.FunctionDef, ast.AsyncFunctionDef, ast.ClassDef)):
+            if st.name in seen and st.name in translated:
+                fail(rel, st, 'a translated name is defined twice')
+            seen.add(st.name)
+            continue
+        if isinstance(st, ast.Expr) and isinstance(st.value, ast.Constant):
+            continue
+        if isinstance(st, (ast.Assign, ast.AnnAssign)):
+            targets = st.targets if isinstance(st, ast.Assign) else [st.target]
+            if all(isinstance(t, ast.Name) and t.id not in translated for t in targets) and not (idents(st) & translated) \
+                    and not any(isinstance(n, ast.Call) and is_name(n.func) and n.func.id in ('setattr', 'globals', 'vars', 'exec', 'eval')
+                                for n in ast.walk(st)):
+                continue
+        fail(rel, st, 'module-level statement that may rebind / monkeypatch translated code')
+
+
+# translated names a module legitimately imports (and uses) from another translated module
+IMPORTED_TRANSLATED: dict = {}
 
 
 # ---------------------------------------------------------------- Coq text
@@ -291,9 +337,7 @@ class Body:
         if isinstance(s, ast.Expr):
             if isinstance(s.value, ast.Call):
                 return f'(SExpr {self.expr(s.value)})'
-            if pure(s.value):
-                return ''
-            fail(self.fn, s, 'expression statement not supported')
+            fail(self.fn, s, 'expression statement that is neither a call nor a constant')
         if isinstance(s, ast.Return):
             return f'(SReturn {"ENone" if s.value is None else self.expr(s.value)})'
         if isinstance(s, ast.If):
@@ -355,6 +399,8 @@ def stdinout_defs(tree) -> dict:
     cls = find(tree.body, ast.ClassDef, 'StdInOut', SRC_STREAM)
     if cls.decorator_list or cls.keywords:
         raise DebugStreamError('StdInOut: decorators / metaclass')
+    if [norm(b) for b in cls.bases] != ['TextIOWrapper'] or imports_of(tree).get('TextIOWrapper') != ('io', 'TextIOWrapper'):
+        raise DebugStreamError('StdInOut: bases other than io.TextIOWrapper')
     res = {}
     for st in strip_doc(cls.body):
         if isinstance(st, ast.FunctionDef) and st.name in STDINOUT_METHODS:
@@ -600,13 +646,17 @@ def on_write_stdout_def(tree) -> str:
                 else:
                     fail(fn, st, 'OnWriteStdout(trace_no=...) not recognised')
                 for other, val in kws.items():
-                    if other not in ('trace_no', 'text') and ({n.id for n in ast.walk(val) if isinstance(n, ast.Name)} & {'line', 'trace_no'}):
-                        fail(fn, st, f'OnWriteStdout({other}=...) reads trace_no / line')
+                    if other not in ('trace_no', 'text') and (not pure(val) or ({n.id for n in ast.walk(val) if isinstance(n, ast.Name)} & {'line', 'trace_no'})):
+                        fail(fn, st, f'OnWriteStdout({other}=...) calls something or reads trace_no / line')
                 event = (kk, 'true' if is_name(kws['text'], 'line') else 'false')
                 continue
-            idents = {n.id for n in ast.walk(st) if isinstance(n, ast.Name)} | {n.attr for n in ast.walk(st) if isinstance(n, ast.Attribute)}
-            if not (idents & OWS_TRACKED):
-                continue                                        # written_at = datetime.datetime.utcnow()
+            # a time stamp: <name> = datetime.datetime.utcnow() / .now(..)   (recognised, not ignored)
+            if isinstance(v, ast.Call) and (is_attr_chain(v.func, ['datetime', 'datetime', 'utcnow']) or is_attr_chain(v.func, ['datetime', 'datetime', 'now'])) \
+                    and all(pure(a) for a in v.args) and all(pure(k.value) for k in v.keywords) \
+                    and not (idents(v) & (OWS_TRACKED | {selfname})) and t not in OWS_TRACKED:
+                continue
+            if pure(v) and not (idents(st) & (OWS_TRACKED | {selfname})):
+                continue
             fail(fn, st, 'assignment not recognised')
         if isinstance(st, ast.Expr) and isinstance(st.value, ast.Call) and is_attr_chain(st.value.func, [selfname, '_queue_out', 'put']):
             c = st.value
@@ -617,6 +667,9 @@ def on_write_stdout_def(tree) -> str:
         fail(fn, st, 'statement not recognised')
     if event is None:
         raise DebugStreamError(f'{fn}: no OnWriteStdout(...) is built')
+    for m in cls.body:
+        if m is not f and 'OnWriteStdout' in idents(m):
+            fail('Repeater', m, 'another member builds OnWriteStdout events')
     return f'(mkEv {event[0]} {event[1]} {puts})'
 
 
@@ -629,6 +682,15 @@ def custom_defs(tree) -> dict:
     cls = find(tree.body, ast.ClassDef, 'CustomizedPdb', SRC_CUSTOM)
     if [norm(b) for b in cls.bases] != ['Pdb'] or cls.keywords or cls.decorator_list:
         raise DebugStreamError('CustomizedPdb: bases / decorators')
+    methods = {}
+    for st in strip_doc(cls.body):
+        if isinstance(st, ast.FunctionDef) and st.name in CUSTOM_METHODS and not st.decorator_list and st.name not in methods:
+            methods[st.name] = st
+        elif isinstance(st, ast.AnnAssign) and st.value is None:
+            continue
+        else:
+            # an override of a Pdb / Cmd / Bdb method (do_*, message, default, ...) can print anywhere: not modelled
+            fail('CustomizedPdb', st, f'class member other than {"/".join(CUSTOM_METHODS)}')
     init = find(cls.body, ast.FunctionDef, '__init__', 'CustomizedPdb')
     ps = plain_params(init, 'CustomizedPdb.__init__')
     if init.decorator_list or not ps:
@@ -669,7 +731,43 @@ def custom_defs(tree) -> dict:
         if name not in given or is_const(given[name], None):
             return 'XAbsent'
         return tr_sexp(given[name], 'CustomizedPdb.__init__', set(params))
-    return {'params': params, 'super': f'({sx("stdin")}, {sx("stdout")})'}
+    # every call the methods make, as a descriptor (the whitelist is in Coq: DebugTie.v harmless_callee)
+    calls = []
+    for nm in CUSTOM_METHODS:
+        if nm not in methods:
+            continue
+        m = methods[nm]
+        mself = plain_params(m, 'CustomizedPdb.' + nm)[0]
+        for d in m.args.defaults + m.args.kw_defaults:
+            if d is not None and not pure(d):
+                fail('CustomizedPdb.' + nm, d, 'default value that calls something')
+        ds = []
+        for n in ast.walk(m):
+            if isinstance(n, (ast.Lambda, ast.FunctionDef, ast.AsyncFunctionDef, ast.ClassDef)) and n is not m:
+                fail('CustomizedPdb.' + nm, n, 'nested definition')
+            if isinstance(n, (ast.Global, ast.Nonlocal, ast.Import, ast.ImportFrom)):
+                fail('CustomizedPdb.' + nm, n, 'global / import inside the method')
+            if isinstance(n, ast.Name) and n.id in ('sys', 'print', 'pprint', 'pydoc', 'os', 'builtins', '__builtins__', 'input'):
+                fail('CustomizedPdb.' + nm, n, 'mentions a name through which the process streams are reached')
+            if not isinstance(n, ast.Call):
+                continue
+            f = n.func
+            if isinstance(f, ast.Name):
+                ds.append(f.id)
+            elif isinstance(f, ast.Attribute) and is_name(f.value, mself):
+                ds.append('self.' + f.attr)
+            elif isinstance(f, ast.Attribute) and isinstance(f.value, ast.Attribute) and is_name(f.value.value, mself):
+                ds.append(f'self.{f.value.attr}.{f.attr}')
+            elif isinstance(f, ast.Attribute) and isinstance(f.value, ast.Call) and is_name(f.value.func, 'super') \
+                    and not f.value.args and not f.value.keywords:
+                ds.append('super.' + f.attr)
+            elif isinstance(f, ast.Attribute) and is_name(f.value, 'logger'):
+                ds.append('logger')
+            else:
+                fail('CustomizedPdb.' + nm, n, 'call not recognised')
+        ds = [d for d in ds if d != 'super']          # the inner `super()` of super().x(...)
+        calls.append(f'({cstr(nm)}, {clist([cstr(d) for d in ds])})')
+    return {'params': params, 'super': f'({sx("stdin")}, {sx("stdout")})', 'calls': clist(calls)}
 
 
 def tr_sexp(n, fn: str, names: set[str]) -> str:
@@ -840,6 +938,16 @@ def other_stdout_uses(repo: Path, allowed) -> list[str]:
                     hit = 'from sys import stdout'
                 elif isinstance(n, ast.Constant) and n.value in ('stdout', '__stdout__') and not isinstance(n.value, bool):
                     hit = 'the string ' + repr(n.value)         # getattr(sys, 'stdout')
+                elif isinstance(n, ast.Attribute) and n.attr in ('stdout', '__stdout__', 'displayhook'):
+                    hit = 'attribute .' + n.attr
+                elif isinstance(n, ast.Import) and any(a.name == 'sys' and a.asname not in (None, 'sys') for a in n.names):
+                    hit = 'import sys as ...'
+                elif isinstance(n, (ast.Import, ast.ImportFrom)) and any(
+                        (a.name.split('.')[0] in ('pprint', 'pydoc', 'code')) or (isinstance(n, ast.ImportFrom) and (n.module or '').split('.')[0] in ('pprint', 'pydoc', 'code'))
+                        for a in n.names):
+                    hit = 'import of pprint / pydoc / code'
+                elif isinstance(n, ast.Call) and (is_name(n.func, 'input') or is_name(n.func, 'breakpoint') or is_attr_chain(n.func, ['os', 'write'])):
+                    hit = 'input() / breakpoint() / os.write()'
                 if hit:
                     out.append(f'{rel}:{n.lineno}: {hit}')
     return out
@@ -849,6 +957,14 @@ def other_stdout_uses(repo: Path, allowed) -> list[str]:
 
 def translate(repo: Path) -> str:
     repo = Path(repo)
+    check_module(parse(repo, SRC_STREAM), SRC_STREAM, {'StdInOut', 'TextIOWrapper'} - {'TextIOWrapper'})
+    IMPORTED_TRANSLATED[SRC_FACTORY] = ('StdInOut', 'CustomizedPdb')
+    check_module(parse(repo, SRC_FACTORY), SRC_FACTORY, {'Factory', 'PdbInstanceFactory', 'StdInOut', 'CustomizedPdb', 'PromptFunc', 'CmdloopHook'})
+    check_module(parse(repo, SRC_CUSTOM), SRC_CUSTOM, {'CustomizedPdb', 'Pdb'} - {'Pdb'})
+    check_module(parse(repo, SRC_PEEK_UTIL), SRC_PEEK_UTIL, {'peek_textio', 'peek_stdout', 'sys'} - {'sys'})
+    IMPORTED_TRANSLATED[SRC_PEEK_PLUGIN] = ('peek_stdout',)
+    check_module(parse(repo, SRC_PEEK_PLUGIN), SRC_PEEK_PLUGIN, {'peek_stdout_by_key', 'ReadLinesByKey', 'AssignKey', 'peek_stdout', 'PeekStdout'})
+    check_module(parse(repo, SRC_REPEAT), SRC_REPEAT, {'Repeater'})
     so = stdinout_defs(parse(repo, SRC_STREAM))
     pk = peek_defs(parse(repo, SRC_PEEK_UTIL), parse(repo, SRC_UTILS_INIT))
     wiring = wiring_def(parse(repo, SRC_PEEK_PLUGIN))
@@ -882,6 +998,8 @@ def translate(repo: Path) -> str:
         '(** CustomizedPdb.__init__ (pdb_/custom.py): its stream parameters and what it hands to Pdb.__init__ as (stdin, stdout) *)',
         f'Definition pdb_init_params : list string := {clist([cstr(p) for p in cu["params"]])}.',
         f'Definition pdb_super_init : sexp * sexp := {cu["super"]}.',
+        '(** every call made by the methods CustomizedPdb defines (no other member is accepted) *)',
+        f'Definition pdb_override_calls : list (string * list string) :=\n  {cu["calls"]}.',
         '',
         '(** peek_textio (utils/peek.py): the context manager, and the function it installs as textio.write *)',
         f'Definition peek_textio_prog : list pstmt :=\n  {pk["prog"]}.',
